@@ -171,3 +171,89 @@ func VerifC05BuiltinNext() {
 		verifAssert(err == error(bOther), "any other exception propagates unchanged, default or not")
 	}
 }
+
+// zip / map / filter / enumerate are lazy consumers: each next() on them draws
+// from the producer, they end exactly when the producer ends (StopIteration in
+// any form), pass any other exception on unchanged, and zip() of nothing is empty.
+//
+//verif:property C05
+//verif:runinit github.com/go-python/gpython/py.init@type.go:1
+//verif:expect drove
+//verif:maxpaths 20000 100000
+func VerifC05LazyConsumers() {
+	bReady()
+	p := &bProducer{}
+	ident := py.MustNewMethod("ident", func(self py.Object, args py.Tuple) (py.Object, error) {
+		if len(args) != 1 {
+			return nil, py.ExceptionNewf(py.TypeError, "one argument")
+		}
+		return args[0], nil
+	}, 0, "")
+	which := verifChoice("consumer", 5)
+	var it py.Object
+	var err error
+	switch which {
+	case 0:
+		it, err = py.Call(py.ZipType, py.Tuple{p}, nil)
+	case 1:
+		it, err = py.Call(py.MapType, py.Tuple{ident, p}, nil)
+	case 2:
+		it, err = py.Call(py.FilterType, py.Tuple{ident, p}, nil)
+	case 3:
+		it, err = py.Call(py.EnumerateType, py.Tuple{p}, nil)
+	case 4:
+		it, err = py.Call(py.ZipType, nil, nil)
+	}
+	verifAssert(err == nil, "the lazy consumer is created without touching the producer")
+	verifAssert(p.calls == 0, "nothing is drawn before the first next()")
+	var got []py.Object
+	var end error
+	for k := 0; k < 4; k++ {
+		v, e := py.Next(it)
+		if e != nil {
+			end = e
+			break
+		}
+		got = append(got, v)
+	}
+	verifReach("drove")
+	if which == 4 {
+		verifAssert(end != nil && py.IsException(py.StopIteration, end) && len(got) == 0, "zip() of no iterables is empty")
+		return
+	}
+	if p.ended() == 2 {
+		verifAssert(end == error(bOther), "an exception raised by the producer propagates unchanged")
+	} else if p.ended() == 1 {
+		verifAssert(end != nil && py.IsException(py.StopIteration, end), "the consumer ends when the producer ends")
+	}
+	// the items delivered so far
+	want := p.items
+	switch which {
+	case 0:
+		verifAssert(len(got) == len(want) || (p.ended() == 0 && len(got) <= len(want)), "zip delivers one tuple per item")
+		for i := range got {
+			t, ok := got[i].(py.Tuple)
+			verifAssert(ok && len(t) == 1 && t[0] == want[i], "zip yields 1-tuples of the items in order")
+		}
+	case 1:
+		for i := range got {
+			verifAssert(got[i] == want[i], "map yields f(item) in order")
+		}
+	case 2:
+		n := 0
+		for _, w := range want {
+			if w.(py.Int) != 0 {
+				if n < len(got) {
+					verifAssert(got[n] == w, "filter yields the true items in order")
+				}
+				n++
+			}
+		}
+		verifAssert(len(got) <= n, "filter yields only true items")
+	case 3:
+		for i := range got {
+			t, ok := got[i].(py.Tuple)
+			verifAssert(ok && len(t) == 2 && t[0] == py.Object(py.Int(i)) && t[1] == want[i], "enumerate yields (index, item)")
+		}
+	}
+}
